@@ -86,8 +86,8 @@ KINDS = ["unknown-mnemonic", "undefined-symbol", "undefined-symbol-dw", "out-of-
          "define-self", "define-mutual", "define-chain-129", "define-chain-stmt", "macro-recursive",
          "div-zero", "div-zero-after-add", "div-zero-before-add", "mod-zero-after-mul", "div-zero-in-parens", "div-zero-via-equ",
          "duplicate-define", "duplicate-equ-directive", "duplicate-macro", "set-no-name", "equ-no-name", "token-too-long", "string-too-long",
-         "db-trailing-comma", "db-empty", "define-empty", "operand-drop", "operand-extra", "punct-swap", "truncate", "number-extreme"]
-LINE_KINDS = ("operand-drop", "operand-extra", "punct-swap", "truncate", "number-extreme")
+         "db-trailing-comma", "db-empty", "define-empty", "operand-drop", "operand-extra", "punct-swap", "truncate", "number-extreme", "hash-no-value"]
+LINE_KINDS = ("operand-drop", "operand-extra", "punct-swap", "truncate", "number-extreme", "hash-no-value")
 NUM_LIT = re.compile(r"(?<![\w.$])(0x[0-9a-fA-F]+|\d+)\b")
 EXTREMES = [-1, -129, -32769, 5, 7, 0x81, 255, 256, 0x1001, 65535, 65536, 0x12345, 0x100000, 0x4000000, 0x7fffffff, 0xffffffff, -0x80000000, 3, 9, 0x3f, 0x40]
 PLACES = ["top", "in-macro", "in-include", "in-repeat", "in-if", "in-nested-if", "in-else", "in-ifdef", "in-deep-if"]
@@ -179,6 +179,10 @@ class C12(Engine):
                 ops.append({"op": "corrupt", "kind": "number-extreme", "place": "top", "pos": 1, "w": w, "k": rng.below(100000)})
                 ops.append({"op": "asm", "type": typ, "flags": rng.subset(["-l", "-q"], 1, 3), "out": out, "faults": []})
                 ops.append({"op": "restore"})
+            if re.search(r"#\s*[\w$-]", line):
+                ops.append({"op": "corrupt", "kind": "hash-no-value", "place": "top", "pos": 1, "w": w, "k": 0})
+                ops.append({"op": "asm", "type": typ, "flags": [], "out": out, "faults": []})
+                ops.append({"op": "restore"})
             return {"prog": prog, "ops": ops}
         if index < len(DIRECTED):
             kind, place = DIRECTED[index]
@@ -261,10 +265,12 @@ class C12(Engine):
             k = op.get("k", 0) % (len(text) + 1)
             p["raw"] = text[:k]
             return p, {"erroneous": False, "kind": kind, "place": "top"}
-        if kind in ("operand-drop", "operand-extra", "punct-swap", "number-extreme"):
+        if kind in ("operand-drop", "operand-extra", "punct-swap", "number-extreme", "hash-no-value"):
             idx = [i for i, s in enumerate(p["stmts"]) if len(s) == 1 and s[0][:1] in (" ", "\t") and s[0].strip() and i > 0]
             if kind == "number-extreme":
                 idx = [i for i in idx if NUM_LIT.search(p["stmts"][i][0])]
+            if kind == "hash-no-value":
+                idx = [i for i in idx if re.search(r"#\s*[\w$-]", p["stmts"][i][0])]
             if kind == "punct-swap":
                 idx = [i for i in idx if re.search(r"[()\[\],#@+]", p["stmts"][i][0])]
             if not idx:
@@ -279,6 +285,11 @@ class C12(Engine):
                 at = spots[op.get("k", 0) % len(spots)]
                 repl = "()[],#@+-"[(op.get("k", 0) // 7) % 9]
                 line = line[:at] + repl + line[at + 1:]
+            elif kind == "hash-no-value":
+                # the statement stops right after the immediate marker: an immediate without a value is not an immediate 0
+                line = line[:line.rindex("#") + 1]
+                p["stmts"][i] = [line]
+                return p, {"erroneous": True, "kind": kind, "place": "top"}
             elif kind == "number-extreme":
                 # one numeric literal of an instruction replaced by a boundary or extreme value: consistency checks only
                 # (the result may be encodable); an operand the assembler calls out of range must fail the assembly
